@@ -386,11 +386,15 @@ class TDSData:
                     continue
 
                 if system.Output.n > 0:
-                    output_addr = system.Output.to_output_addr(item, check=True)
+                    # sub-indices refer to the devices of the variable, not to the stored subset
+                    output_addr = system.Output.to_output_addr(item, check=True, a=a)
                     if len(output_addr) == 0:
                         continue
 
                     nx = len(system.Output.xidx)
+                elif a is not None:
+                    output_addr = np.take(item.a, a)
+                    nx = dae.n
                 else:
                     output_addr = item.a
                     nx = dae.n
@@ -402,9 +406,6 @@ class TDSData:
                     offset = 1
 
                 new_yidx = output_addr + offset
-
-                if a is not None:
-                    new_yidx = np.take(new_yidx, a)
                 all_yidx = np.append(all_yidx, new_yidx)
 
             yidx = all_yidx
